@@ -597,6 +597,12 @@ func expOf(u *Term) *Term {
 				continue
 			}
 		}
+		if !p.IsInt64() || k > 64 || k < -64 {
+			// a large numerator stays inside the argument (exp(c*m) as one atom)
+			arg := Div(Mul(Const(c), m), den)
+			res = Mul(res, fromAtom(intern("exp", "", []*Term{arg})))
+			continue
+		}
 		arg := Div(m, Mul(Const(new(big.Rat).SetInt(q)), den))
 		a := fromAtom(intern("exp", "", []*Term{arg}))
 		res = Mul(res, PowInt(a, k))
